@@ -169,8 +169,8 @@ func init() {
 		Required: []string{"tokens", "sequences", "isident.true", "isident.false", "isurlunquoted.true", "isurlunquoted.false", "probes"},
 		Streams: []fw.Stream{
 			{Name: "probes", Quick: len(c07Probes), Thorough: len(c07Probes), Run: c07Probe},
-			{Name: "sequence", Quick: 400000, Thorough: 10000000, Run: c07Sequence},
-			{Name: "agree", Quick: 600000, Thorough: 15000000, Run: c07Agree},
+			{Name: "sequence", Quick: 400000, Thorough: 60000000, Run: c07Sequence},
+			{Name: "agree", Quick: 600000, Thorough: 90000000, Run: c07Agree},
 		},
 	})
 }
